@@ -222,6 +222,38 @@ def eval_helpers(case):
     return OK(outcome=(tuple(case), hash(tuple(acc))), nontrivial=len(set(case)) > 1, evals=nev)
 
 
+def eval_group3d(case):
+    """Tables returned by compute_features_3d for a non-square array of DIFFERENT signals: every table must satisfy the
+    shape definitions against the signal at ITS position (axis (0,1)) / its epoch of the flattened slice (axis 0, 1 are
+    covered by the epoched space)."""
+    import contextlib, io
+    from bycycle.group import compute_features_3d
+    from bcmc import sched
+    letters, (centre, shape) = case[:-1], case[-1]
+    w = ''.join(letters)
+    o = S.resolve(('trough',) if centre == 'trough' else ())
+    n0, n1 = shape
+    rows = []
+    for k in range(n0 * n1):
+        x = S.word_signal(w[k % len(w):] + w[:k % len(w)]) * (k + 1.0)       # rotation k of the word, amplitude k + 1
+        ok, why, ref = precondition(x, o)
+        if not ok:
+            return SKIP(why)
+        rows.append(x)
+    sigs = np.array(rows).reshape(n0, n1, -1)
+    with sched.patched_pool(None), contextlib.redirect_stdout(io.StringIO()):
+        dfs = compute_features_3d(sigs.copy(), o['fs'], o['f_range'], compute_features_kwargs={'center_extrema': centre, 'threshold_kwargs': dict(S.T0)},
+                                  axis=(0, 1), return_samples=True, n_jobs=1)
+    for i in range(n0):
+        for j in range(n1):
+            sgn = {'centre': centre, 'via': 'compute_features_3d', 'devs': [], 'square': n0 == n1}
+            v = check_shape_table(dfs[i][j], sigs[i, j], o, sgn)
+            if v is not None:
+                v['msg'] = 'table [%d][%d] against the signal at [%d][%d]: ' % (i, j, i, j) + v['msg']
+                return v
+    return OK(outcome=(w, centre, tuple(shape), table_hash(dfs[n0 - 1][n1 - 1], SHAPE_COLS + ['band_amp'])), nontrivial=True, evals=n0 * n1)
+
+
 _BA_SIGS = None
 
 
@@ -286,6 +318,14 @@ def spaces(tier, seed):
         out.append(ProductSpace('Wlen(4,6)xcentring', S.word_dims(alv, 6) + [[(), ('trough',)]], eval_pipeline,
                                 describe='6-letter words over letters of 8 / 6 / 10 / 7 samples: signal lengths 36..60 incl. primes '
                                          '(FFT-length dependent code paths)', bounds={'letters': alv}))
+        alz = ['a', 'z', 'n', 'd']
+        out.append(ProductSpace('Wzero(4,5)xcentring', S.word_dims(alz, 5) + [[(), ('trough',), ('b1',), ('trough', 'nc2')]], eval_pipeline,
+                                describe='words with exact-zero stretches (gated / blanked recordings): flanks that are all zeros take the '
+                                         'centre-of-segment midpoint branch', bounds={'letters': alz}))
+        g3 = [('peak', (2, 3)), ('trough', (3, 2)), ('trough', (1, 3))] if tier == 'quick' else [(c, sh) for c in ('peak', 'trough') for sh in ((2, 3), (3, 2), (1, 3), (2, 2))]
+        out.append(ProductSpace('group3d-W(3,5)', S.word_dims(S.alphabet(3), 5) + [g3], eval_group3d,
+                                describe='compute_features_3d(axis=(0,1)) on (non-)square arrays of different signals: every table against '
+                                         'the definitions for the signal at its own position'))
         ali = [(c, e) for c in ('peak', 'trough') for e in ('compute_features', 'compute_shape_features', 'Bycycle.fit')]
         out.append(ProductSpace('aliased-buffer', S.word_dims(S.alphabet(4), 5) + [ali], eval_aliased,
                                 describe='one pre-allocated array analysed twice with different content (in-place overwrite) x centring x entry point'))
